@@ -8,6 +8,7 @@
 From Coq Require Import List Arith Bool Lia ZArith QArith Qcanon.
 From VZ Require Import Model.K02_Windows Model.K03_Cooc Model.K03_Exec Model.K04_EM.
 From VZ Require Model.K04_EM_idx Model.K02_Windows_idx Proofs.K04_EM_idx_proofs Proofs.K02_Windows_idx_proofs.
+From VZ Require Model.K03_Driver_idx Proofs.K03_Driver_idx_proofs.
 Import ListNotations.
 
 (* ================================================================== em_update_matrix *)
@@ -179,3 +180,54 @@ Example C10_radii_instances :
   show_res id (lookup2 [[3; 3; 0]; [2; 2; 0]]%nat 1 3) = (None, Some W_radii_col).
 Proof. vm_compute. repeat split. Qed.
 End WIN.
+
+(* ================================================================== the token driver loop *)
+Module DRV.
+Import Model.K02_Windows_idx Model.K03_Driver_idx Proofs.K03_Driver_idx_proofs.
+Open Scope nat_scope.
+
+(* numba_build_skip_grams at index level (Model/K03_Driver_idx.v): for every list of window/kernel blocks whose radius
+   rows have n_unique + 1 entries, every array_lengths with one entry per block, every corpus whose token ids are
+   <= n_unique (vocabulary ids and the mask id) — documents of length 0 / 1, radii 0 or beyond the document,
+   offsets beyond the window included — every look-up of the loop (window_size_array[i, target_word],
+   window_reversals[i], kernel_functions[i], kernel_args[i], mix_weights[i], windows[i], kernels[i], this_ker[j],
+   coo_data[i], array_lengths[i], every element of every window view, every access of the kernel functions) is in
+   range, and the appended tuples are, in order, those of the list-level driver token_events, each with
+   key = col + array_mul * row. *)
+Theorem C10_build_skip_grams_idx :
+  forall (K : carrier) (blocks : list (block K)) nw n array_lengths docs,
+  Forall (fun b : block K => length (b_radii b) = n + 1) blocks ->
+  length blocks <= length array_lengths ->
+  Forall (Forall (fun t => t <= n)) docs ->
+  build_skip_grams_idx (tables_of blocks) nw n array_lengths docs
+  = DOk (map (keyed (length blocks * n + 1)) (token_events blocks nw n docs)).
+Proof. exact @build_skip_grams_idx_refines. Qed.
+Print Assumptions C10_build_skip_grams_idx.
+
+(* every appended tuple goes to an existing accumulator, and its key decodes back to (row, col):
+   0 <= col < array_mul (the `+ 1` of array_mul is what makes room for the mask id in the last block) *)
+Theorem C10_skip_gram_keys : forall (K : carrier) (blocks : list (block K)) nw n docs,
+  Forall (Forall (fun t => t <= n)) docs ->
+  let am := length blocks * n + 1 in
+  Forall (fun e : event K => e_blk e < length blocks /\ e_row e <= n /\ e_col e < am /\
+                             key_of am e / am = e_row e /\ key_of am e mod am = e_col e)
+         (token_events blocks nw n docs).
+Proof. exact @token_event_keys. Qed.
+Print Assumptions C10_skip_gram_keys.
+
+(* non-vacuity, and the two ways out of the tables: a token id beyond the radius table, a short array_lengths *)
+Definition ex_blocks : list (block QcK) :=
+  [mkblock false [2; 2; 2; 0] kf_harmonic (Some 3) false 0 (qc 1 1); mkblock true [1; 1; 1; 0] kf_flat (Some 3) true 0 (qc 1 2)].
+Definition sh (l : list (event QcK * nat)) := map (fun ek : event QcK * nat => (show_events [fst ek], snd ek)) l.
+
+Example C10_driver_instance :
+  Forall (fun b : block QcK => length (b_radii b) = 3 + 1) ex_blocks /\
+  Forall (Forall (fun t => t <= 3)) [[0; 1; 3; 2]; [1]; []] /\
+  show_dres sh (build_skip_grams_idx (tables_of ex_blocks) true 3 [5; 5] [[0; 1; 3; 2]; [1]; []])
+  = (Some [([(0, 0, 1, (1, 1)%Z)], 1); ([(0, 1, 2, (1, 2)%Z)], 9); ([(1, 1, 3, (1, 2)%Z)], 10)], None) /\
+  show_dres sh (build_skip_grams_idx (tables_of ex_blocks) true 3 [5; 5] [[0; 4]]) = (None, Some (D_win W_radii_col)) /\
+  show_dres sh (build_skip_grams_idx (tables_of ex_blocks) true 3 [5] [[0; 1]]) = (None, Some D_array_lengths).
+Proof.
+  split; [repeat constructor|]. split; [repeat constructor|]. vm_compute. repeat split.
+Qed.
+End DRV.
